@@ -38,6 +38,22 @@ func (c *verifChunked) Read(p []byte) (int, error) {
 func (c *verifChunked) Write(p []byte) (int, error) { return c.out.Write(p) }
 func (c *verifChunked) Close() error                { return nil }
 
+// verifCancelling accepts every byte and cancels a context during its after-th Write call.
+type verifCancelling struct {
+	verifChunked
+	after  int
+	calls  int
+	cancel func()
+}
+
+func (c *verifCancelling) Write(p []byte) (int, error) {
+	c.calls++
+	if c.calls == c.after {
+		c.cancel()
+	}
+	return c.out.Write(p)
+}
+
 func TestVerifReplayC18(t *testing.T) {
 	ctx := context.Background()
 	var msgs []Message
@@ -87,6 +103,30 @@ func TestVerifReplayC18(t *testing.T) {
 			return
 		}
 	}
+	// a caller that gives up while a frame is being written: whatever Write returns, the bytes on the wire are
+	// whole frames only (the connection here never refuses bytes)
+	for cancelAt := 1; cancelAt <= 3; cancelAt++ {
+		cctx, cancel := context.WithCancel(context.Background())
+		cw := &verifCancelling{after: cancelAt, cancel: cancel}
+		cs := NewStream(cw)
+		var want bytes.Buffer
+		for i, m := range msgs[:3] {
+			useCtx := ctx
+			if i == 0 {
+				useCtx = cctx
+			}
+			_, err := cs.Write(useCtx, m)
+			js, _ := json.Marshal(m)
+			if err == nil {
+				want.WriteString("Content-Length: " + strconv.Itoa(len(js)) + "\r\n\r\n" + string(js))
+			}
+		}
+		cancel()
+		if cw.out.String() != want.String() {
+			fmt.Printf("REPLAY-CONFIRMED context cancelled during connection write #%d of the first message: the wire holds %q, but the frames of the messages whose Write returned nil are %q (a partial frame was left behind although the connection refused nothing)\n", cancelAt, cw.out.String(), want.String())
+			return
+		}
+	}
 	// malformed / truncated frames: an error, never a panic or hang
 	body := "{\"jsonrpc\":\"2.0\",\"method\":\"x\"}"
 	bad := []string{
@@ -123,7 +163,7 @@ func TestVerifReplayC18(t *testing.T) {
 			}
 		}
 	}
-	fmt.Println("REPLAY-NOT-REPRODUCED bounded search: 5 messages x 6 chunkings, 15 malformed frames x 3 chunkings")
+	fmt.Println("REPLAY-NOT-REPRODUCED bounded search: 5 messages x 6 chunkings, 3 cancellation points, 15 malformed frames x 3 chunkings")
 }
 `
 
